@@ -225,6 +225,8 @@ impl World {
 
         tracing::info!(target: TRACING_TARGET, nodename, ?addr, "New");
 
+        self.dns.reserve(addr);
+
         // Register links between the new host and all existing hosts
         for existing in self.hosts.keys() {
             self.topology.register(*existing, addr);
